@@ -211,9 +211,23 @@ def run(ctx):
                        witness='Insert(values=[[Constant(1), Constant(True)]]) prints (1, 1)')
     iv = model.get('Insert').methods.get('to_value')
     ctx.need(iv is not None, 'Insert.to_value not found')
-    uses_const = any(isinstance(n, ast.Call) and dotted(n.func) == 'Constant' for n in ast.walk(iv))
-    ctx.ob('C07.single-gateway', 'Insert.to_value', uses_const,
-           'Insert.to_value does not print raw values through the constant printer', file='mindsdb_sql/parser/ast/insert.py', line=iv.lineno)
+    # Insert.to_value interpreted (with the real Constant class) on raw row values: the text is what the constant printer gives for that value
+    from ..interp import Interp as _I, Obj as _O, Raised as _R, Env as _E
+    ifile = 'mindsdb_sql/parser/ast/insert.py'
+    also = ('mindsdb_sql/parser/ast/base.py', 'mindsdb_sql/parser/ast/select/constant.py')
+    badv = []
+    for v in list(C04.VALUE_PROBES[:12]) + [1, 2.5, True, False, 0, 1e-07]:
+        it = _I.for_file(ctx.src, ifile, {'Constant': {'ASTNode'}}, {}, also=also)
+        try:
+            got = it.call_function(iv, [_O('Insert'), v], {}, _E())
+            want = it.call_function(it.methods['Constant']['to_string'], [_O('Constant', value=v, with_quotes=True, alias=None, parentheses=False)], {}, _E())
+        except _R as r:
+            got, want = f'<raises {r.exc_name}>', None
+        if got != want:
+            badv.append((v, got, want))
+    ctx.ob('C07.single-gateway', 'Insert.to_value', not badv,
+           f'Insert.to_value prints the row value {badv[0][0]!r} as {badv[0][1]}, the constant printer gives {badv[0][2]}: values of INSERT rows must be the same literals '
+           f'as constants elsewhere' if badv else '', file=ifile, line=iv.lineno)
     # (3) gateway in the renderer: raw-SQL constructors fed by value-derived expressions
     RAW = {'sa.text': 0, 'sa.literal_column': 0, 'sa.column': 0, 'text': 0, 'literal_column': 0}
     nsites = 0
